@@ -3,6 +3,9 @@ import AvroModel.Impl.Rabin
 import AvroModel.Spec.Crc64
 import AvroModel.Spec.Denotes
 import AvroModel.Impl.DecimalLib
+import AvroModel.Impl.Ocf
+import AvroModel.Impl.OcfHeader
+import AvroModel.Spec.Ocf
 open Avro Avro.Impl Driver
 
 def Driver.ExtTable.toDenExt (t : ExtTable) : Spec.DenExt :=
@@ -130,6 +133,256 @@ def runC11 : P String := do
       | k :: rest => if rest.all (· == k) then "ok" else "VIOLATION slice and streamed input decode differently"
     pure (" ; ".intercalate (rs.map fmtDe) ++ " # " ++ verdict)
 
+/-! ### Container writer histories -/
+
+open Avro.Impl.Ocf in
+def pSinkResp : P SinkResp := do
+  let t ← tok
+  match t.toList with
+  | ['i'] => pure .interrupted
+  | ['e'] => pure .hardError
+  | 'a' :: ds => match (String.ofList ds).toNat? with
+    | some k => pure (.accept k)
+    | none => throw s!"bad sink response {t}"
+  | _ => throw s!"bad sink response {t}"
+
+inductive WCase
+  | val (sv : SV) | push (b : Bytes) (n : Nat) | finish | into | drop
+
+def pWCase : P WCase := do
+  let t ← tok
+  match t with
+  | "val" => do pure (.val (← pSV))
+  | "push" => do let b ← pBytes; let n ← pNat; pure (.push b n)
+  | "finish" => pure .finish
+  | "into" => pure .into
+  | "drop" => pure .drop
+  | _ => throw s!"unknown writer op {t}"
+
+/-- status of a sink as the independent parser sees it: blocks, values, trailing bytes -/
+def sinkStatus (isNull : Bool) (sink : Bytes) : String :=
+  match Spec.Ocf.parse sink with
+  | none => s!"unparseable" ++ (if isNull then s!"L{sink.length}" else "")
+  | some v =>
+    let vals := (v.blocks.map (·.count)).foldl (· + ·) 0
+    s!"B{v.blocks.length}V{vals}T{if v.trailing = 0 then 0 else 1}{if v.badSync then "X" else ""}"
+      ++ (if isNull then s!"L{sink.length}" else "")
+
+def viewToString (v : Spec.Ocf.View) : String :=
+  s!"H {v.metadata.length}" ++ String.join (v.metadata.map fun (k, x) => s!" x{bytesToHex k} x{bytesToHex x}")
+    ++ s!" S x{bytesToHex v.sync} B {v.blocks.length}"
+    ++ String.join (v.blocks.map fun b => s!" {b.count} x{bytesToHex b.data}")
+    ++ s!" T {v.trailing}"
+
+/-- `ocfw <codec> <approx> <debug> <schema> <xjson> <nmeta (k v)*> <xsync> <nsched resp*> <nops op*> [ext]` -/
+def runOcfw : P String := do
+  let codecName ← tok
+  let approx ← pNat
+  let debug := (← pNat) ≠ 0
+  let sm ← pSchemaMut
+  let json ← pBytes
+  let userMeta ← pList (do let k ← pBytes; let v ← pBytes; pure (k, v))
+  let sync ← pBytes
+  let sched ← pList pSinkResp
+  let ops ← pList pWCase
+  let ext ← pExtEntries {}
+  let S := freezeNodes sm
+  match S[0]? with
+  | none => pure "noroot"
+  | some root =>
+    let isNull := codecName = "null"
+    -- the model is codec-agnostic: block data is kept uncompressed (identity codec); the harness
+    -- decompresses what the crate wrote before comparing (law L1 is checked there)
+    let codec : Ocf.Codec := { name := codecName, compress := id, isNull := isNull }
+    -- header: one plain `write_all`
+    let hdr := Ocf.headerBytes json codecName.toUTF8.data.toList userMeta sync
+    let sink0 : Ocf.Sink := { sched := sched }
+    let (hr, sink1) := Ocf.writeAllPlain (Ocf.sinkFuel sink0 [hdr]) hdr sink0
+    match hr with
+    | .error _ => pure s!"build-err {sinkStatus isNull sink1.data}"
+    | .ok _ =>
+    let w0 : Ocf.WState := { approx := approx, sync := sync, sink := sink1 }
+    -- run the history; record per op (result, sink status), datums of successes, flush points
+    let step := fun (acc : Ocf.WState × List String × List (Bytes × Nat) × List String × Bool × Bool) (op : WCase) =>
+      let (w, outs, succ, problems, dead, sinkFailed) := acc
+      if dead then acc else
+      let (wop, add) : Ocf.WOp × Option (Bytes × Nat) := match op with
+        | .val sv =>
+          let (r, st) := ser ext.toExt false S root sv {}
+          (match r with
+            | .ok _ => (.value (some st.out), some (st.out, 1))
+            | .error _ => (.value none, none))
+        | .push b n => (.push b n, some (b, n))
+        | .finish => (.finishBlock, none)
+        | .into => (.intoInner, none)
+        | .drop => (.drop, none)
+      let (r, w') := Ocf.wstep codec debug w wop
+      let rs := match r with | .ok _ => "ok" | .error .panic => "panic" | .error _ => "err"
+      let succ' := match r, add with
+        | .ok _, some a => succ ++ [a]
+        | _, _ => succ
+      -- C15 oracle on the sink after a call that returned without error
+      let sinkFailed' := sinkFailed || (match r with | .error .io => true | _ => false)
+      let problems' :=
+        if sinkFailed' then problems else
+        match r with
+        | .ok _ =>
+          (match Spec.Ocf.parse w'.sink.data with
+            | none => problems ++ ["sink is not a container file after a successful call"]
+            | some v =>
+              let data := (v.blocks.map (·.data)).flatten
+              let cnt := (v.blocks.map (·.count)).foldl (· + ·) 0
+              let allData := (succ'.map (·.1)).flatten
+              let allCnt := (succ'.map (·.2)).foldl (· + ·) 0
+              let isFlush : Bool := match op with | .finish | .into | .drop => true | _ => false
+              let p1 := if v.trailing ≠ 0 ∨ v.badSync then ["sink ends inside a block after a successful call"] else []
+              let p2 := if data ≠ allData.take data.length ∨ cnt > allCnt then ["sink contents are not a prefix of the successes"] else []
+              let p3 := if isFlush && (data != allData || cnt != allCnt) then ["after a flush the file does not contain all successes exactly once"] else []
+              problems ++ p1 ++ p2 ++ p3)
+        | .error _ => problems
+      let dead' := match op with | .into | .drop => true | _ => false
+      (w', outs ++ [s!"{rs}@{sinkStatus isNull w'.sink.data}"], succ', problems', dead', sinkFailed')
+    let run := fun (w0 : Ocf.WState) => ops.foldl step (w0, [], [], [], false, false)
+    let (w, outs, _, problems, _, sinkFailed) := run w0
+    -- C16: partial writes and interruptions never change what the sink ends up with
+    let benign := sched.all fun r => match r with | .accept k => k ≥ 1 | .interrupted => true | .hardError => false
+    let problems := if benign then
+        (let (hr0, sinkA) := Ocf.writeAllPlain (hdr.length + 2) hdr {}
+         let _ := hr0
+         let (wA, _, _, _, _, _) := run { approx := approx, sync := sync, sink := sinkA }
+         if wA.sink.data ≠ w.sink.data then problems ++ ["sink contents depend on the write schedule"]
+         else if sinkFailed then problems ++ ["a call failed although the sink only made partial writes / interruptions"]
+         else problems)
+      else problems
+    let final := match Spec.Ocf.parse w.sink.data with
+      | none => "unparseable"
+      | some v => viewToString v
+    let verdict := match problems with
+      | [] => "ok"
+      | p :: _ => s!"VIOLATION {p}"
+    pure (" ".intercalate outs ++ " ; " ++ final ++ " # " ++ verdict)
+
+/-! ### Container reader runs -/
+
+inductive Yield
+  | value (o : Out) | err (e : Ocf.RdErr) | eof
+
+def Yield.toString : Yield → String
+  | .value o => s!"v {outToString o}"
+  | .err .custom => "e custom" | .err .io => "e io" | .err .panic => "e panic"
+  | .eof => "eof"
+
+def yieldKey : Yield → String
+  | .value o => s!"v {outToString (unborrow o)}"
+  | .err .panic => "panic"
+  | .err _ => "e"
+  | .eof => "eof"
+
+/-- call `next` until two consecutive end-of-stream answers (or `maxCalls`) -/
+def readAllYields (d : Ocf.Decomp) (datum : RState → Except DeErr Out × RState) :
+    Nat → Nat → Ocf.Reader → List Yield → List Yield
+  | 0, _, _, acc => acc.reverse
+  | fuel + 1, eofs, r, acc =>
+    match Ocf.next d datum r with
+    | (.ok none, r') =>
+      if eofs ≥ 1 then (.eof :: acc).reverse else readAllYields d datum fuel (eofs + 1) r' (.eof :: acc)
+    | (.ok (some o), r') => readAllYields d datum fuel 0 r' (.value o :: acc)
+    | (.error e, r') => readAllYields d datum fuel 0 r' (.err e :: acc)
+
+def isPrefixOf {α} [BEq α] : List α → List α → Bool
+  | [], _ => true
+  | _, [] => false
+  | a :: as, b :: bs => a == b && isPrefixOf as bs
+
+/-- `ocfr <kind> <codec> <schema> <xjson> <hint> <nb backends…> <xfile> <norig datums…> <ndecomp (raw plain|none)…>` -/
+def runOcfr : P String := do
+  let kind ← tok
+  let codecName ← tok
+  let sm ← pSchemaMut
+  let json ← pBytes
+  let hint ← pHint
+  let mks ← pList (pBackend (fun b => { rest := b }))
+  let file ← pBytes
+  let origs ← pList pBytes
+  let table ← pList (do
+    let raw ← pBytes
+    match (← peek) with
+    | some "none" => do let _ ← tok; pure (raw, (none : Option Bytes))
+    | _ => do let p ← pBytes; pure (raw, some p))
+  let S := freezeNodes sm
+  match S[0]? with
+  | none => pure "noroot"
+  | some root =>
+    let cfg : DeConfig := {}
+    let datum := fun (st : RState) =>
+      let fuel := (64 + 4) * (cfg.maxSeqSize + 8 * S.size + 64) + 16 * st.rest.length + 4096
+      de deExtModel cfg S fuel root 64 false hint st
+    let crcOf (plain : Bytes) : Bytes := []
+    let _ := crcOf
+    -- a table miss means the model cannot know what the decompressor would do: skip the case
+    let missing := table.isEmpty && codecName ≠ "null"
+    let runOne := fun (mk : Bytes → RState) =>
+      match Ocf.readHeader (mk file) with
+      | (.error .notAvro, _) => (["init-err notavro"], ["init-err"], false)
+      | (.error _, _) => (["init-err header"], ["init-err"], false)
+      | (.ok h, src) =>
+        if h.schemaJson ≠ json then (["skip schema text differs"], [], true) else
+        if h.codec ≠ codecName then (["skip codec differs"], [], true) else
+        let isNull := h.codec = "null"
+        -- snappy: the table maps the whole framed block (body ++ crc) to the plain data, the CRC
+        -- check being folded into the table (none = bad stream or bad CRC)
+        let d : Ocf.Decomp := { isNull := isNull, decompress := fun raw => (table.lookup raw).join }
+        let ys := readAllYields d datum 400 0 { sync := h.sync, outer := src } []
+        (ys.map Yield.toString, ys.map yieldKey, false)
+    let results := mks.map runOne
+    if results.any (·.2.2) then pure "skip" else
+    if missing ∧ false then pure "skip" else
+    let outs := results.map fun r => " ".intercalate r.1
+    let keys := results.map (·.2.1)
+    -- expected values, from the original datums
+    let expected : List String := origs.filterMap fun dbytes =>
+      match datum { rest := dbytes } with
+      | (.ok o, st) => if st.rest.isEmpty then some s!"v {outToString (unborrow o)}" else none
+      | _ => none
+    let valuesOf := fun (ks : List String) => ks.filter (·.startsWith "v ")
+    let isInit : List String → Bool := fun ks => match ks with | [k] => k.startsWith "init-err" | _ => false
+    let wellFormed := fun (ks : List String) =>
+      -- values…, then at most one error, then eof eof
+      let afterVals := ks.dropWhile (·.startsWith "v ")
+      afterVals = ["eof", "eof"] ∨ afterVals = ["e", "eof", "eof"]
+    -- the class of an initialisation error is not compared between back-ends
+    let keys := keys.map fun k => if isInit k then ["init-err"] else k
+    let c11 : Bool := match keys with
+      | [] => true
+      | k :: rest => rest.all (· == k)
+    -- the block's declared size exceeds what is left of the input (file cut, or size field
+    -- corrupted): the slice back-end (first) rejects the block before yielding anything from it,
+    -- the readers (all alike) yield what they can decode first
+    let d16shape : Bool := kind != "valid" && (match keys with
+      | sl :: (r1 :: rs) =>
+        rs.all (· == r1) && sl == valuesOf sl ++ ["e", "eof", "eof"] && isPrefixOf (valuesOf sl) (valuesOf r1)
+      | _ => false)
+    -- up to and including the first error
+    let upToErr := fun (ks : List String) => ks.takeWhile (· != "e") ++ (if ks.contains "e" then ["e"] else [])
+    let d19shape : Bool := kind == "flip" && (match keys with
+      | [] => false
+      | k :: rest => k.contains "e" && rest.all (fun k' => upToErr k' == upToErr k))
+    let known := expected.length = origs.length
+    let verdict :=
+      if keys.any (·.contains "panic") then "VIOLATION panic"
+      else if kind = "valid" ∧ known ∧ ¬ keys.all (fun k => k = expected ++ ["eof", "eof"]) then
+        "VIOLATION valid container file: values read back differ from the values written"
+      else if kind = "trunc" ∧ known ∧ ¬ keys.all (fun k => isInit k || (isPrefixOf (valuesOf k) expected && decide (wellFormed k))) then
+        "VIOLATION truncated file: yields are not (a prefix of the written values, then error or end, then end)"
+      else if ¬ keys.all (fun k => isInit k || k.getLast? == some "eof") then
+        "VIOLATION the reader does not reach end of stream (endless yields)"
+      else if !c11 then
+        (if d19shape then "VIOLATION D19-shape corrupted block: outcomes agree up to the first error, then the slice back-end (recoverable datum error) carries on while a reader (I/O error at end of input) stops"
+         else if d16shape then "VIOLATION D16-shape declared block size exceeds the remaining input: the slice back-end rejects the block up front, a reader yields the objects it can decode first"
+         else "VIOLATION slice and streamed container input give different outcomes")
+      else "ok"
+    pure (" ; ".intercalate outs ++ " # " ++ verdict)
+
 /-- `crc <bytes>` → fingerprint by the model; oracle: the specification's bit-serial CRC. -/
 def runCrc : P String := do
   let bs ← pBytes
@@ -149,6 +402,9 @@ def dispatch (line : String) : String :=
       | "crc" => some runCrc
       | "de" => some runDe
       | "c11" => some runC11
+      | "ocfw" => some runOcfw
+      | "ocfr" => some runOcfr
+      | "ocfd" => some (pure "rust-judged")
       | _ => none
     match p with
     | none => s!"bad-case unknown stream {cmd}"
